@@ -493,6 +493,12 @@ impl MasterSession {
             return Err(TaskError::RejectedByIin2(response.header.iin));
         }
 
+        // An outstation may request confirmation of a non-READ response,
+        // e.g. after receiving a broadcast that requires confirmation
+        if response.header.control.con {
+            self.confirm_solicited(io, destination, seq, writer).await?;
+        }
+
         Ok(Some(response))
     }
 
